@@ -1,4 +1,4 @@
-(* Fuelled big-step semantics of the Python fragment of EvalRestoreSyntax.v.
+(* Fuelled semantics of the Python fragment of EvalRestoreSyntax.v, in continuation-passing style.
 
    Hand-written from the Python language reference (assignment, try/finally,
    except matching by class, short-circuit and/or, dict/set methods); it is
@@ -10,8 +10,15 @@
    oracle; the theorems quantify over all oracles (subject to stated frame
    conditions), so nothing is assumed about what the callee computes.
    Fuel decreases on every recursive call; exhaustion is the distinguished
-   [ETimeout]/[STimeout]; a dynamic situation outside the fragment is the
-   distinguished [EStuck]/[SStuck] (never a normal-looking value). *)
+   answer [timeout]; a dynamic situation outside the fragment is the distinguished
+   answer [stuck m] (never a normal-looking value) -- both abort the whole run.
+
+   Why continuation-passing: the final answer type is a parameter, so a
+   postcondition can be the final continuation, and weak-head reduction ([hnf])
+   of a run with symbolic inputs stops exactly where evaluation needs a fact
+   about them (a heap lookup, a callee's answer), with the rest of the run as
+   unevaluated branches.  Proofs about generated terms are then short walks
+   down that tree, and runs on concrete inputs are ordinary computation. *)
 From HyV Require Export State.EvalRestoreSyntax.
 
 Inductive val :=
@@ -228,30 +235,13 @@ Definition bind_params (fd : fundef) (args : list val) (kw : list (string * val)
   then bind_params_aux (fextra fd) (fparams fd) args kw
   else None.
 
-(* The interpreter is written with open recursion: every [*_step] function takes the
-   record of interpreters of the next-smaller fuel.  [interp] ties the knot.  (This
-   keeps each step a non-recursive definition, which is what makes controlled
-   symbolic execution of generated terms possible in proofs.) *)
-Record recs := {
-  r_eval : env -> expr -> st -> eres;
-  r_evals : env -> list expr -> st -> elres;
-  r_evalkw : env -> (list (string * expr)) -> st -> kres;
-  r_ocall : string -> list val -> (list (string * val)) -> st -> eres;
-  r_run_beh : beh -> list event -> eres;
-  r_call_value : option val -> val -> list val -> (list (string * val)) -> st -> eres;
-  r_call_method : option val -> val -> string -> list val -> (list (string * val)) -> st -> eres;
-  r_call_fun : option val -> string -> fundef -> list val -> (list (string * val)) -> st -> eres;
-  r_assign : env -> target -> val -> st -> sres;
-  r_assigns : env -> list target -> list val -> st -> sres;
-  r_exec : env -> stmt -> st -> sres;
-  r_handle : env -> val -> (list (list string * option string * list stmt)) -> st -> sres;
-  r_exec_for : env -> target -> list val -> list stmt -> st -> sres;
-  r_exec_block : env -> list stmt -> st -> sres
-}.
 
 Section Sem.
 Variable P : prog.
 Variable Orc : oracle.
+Variable A : Type.            (* the type of final answers *)
+Variable timeout : A.
+Variable stuck : string -> A.
 
 Definition glob_get (h : heap) (x : string) : val :=
   if strmem x (pvars P) then
@@ -261,80 +251,68 @@ Definition glob_get (h : heap) (x : string) : val :=
     end
   else VGlobal x.
 
-Definition subscript (h : heap) (v k : val) (s : st) : eres :=
+(* ---- primitives; k = normal continuation, kx = exception continuation *)
+Definition truthy_k (h : heap) (v : val) (k : bool -> A) : A :=
+  match truthy h v with
+  | Some b => k b
+  | None => stuck "truth value of a dangling reference"
+  end.
+
+Definition nth_k (vs : list val) (z : Z) (k : val -> A) (kx : val -> A) : A :=
+  if (z <? 0)%Z then stuck "negative index"
+  else match nth_error vs (Z.to_nat z) with Some x => k x | None => kx (exn "IndexError") end.
+
+Definition subscript_k (h : heap) (v key : val) (k : val -> A) (kx : val -> A) : A :=
   match v with
   | VRef i =>
       match hget h i with
-      | Some (ODict kvs) => match dget k kvs with Some x => EOk x s | None => EExc (exn "KeyError") s end
-      | Some (OList vs) =>
-          match k with
-          | VInt z => if (z <? 0)%Z then EStuck "negative index"
-                      else match nth_error vs (Z.to_nat z) with Some x => EOk x s | None => EExc (exn "IndexError") s end
-          | _ => EExc (exn "TypeError") s
-          end
-      | Some _ => EExc (exn "TypeError") s
-      | None => EStuck "dangling reference"
+      | Some (ODict kvs) => match dget key kvs with Some x => k x | None => kx (exn "KeyError") end
+      | Some (OList vs) => match key with VInt z => nth_k vs z k kx | _ => kx (exn "TypeError") end
+      | Some _ => kx (exn "TypeError")
+      | None => stuck "dangling reference"
       end
-  | VTup vs =>
-      match k with
-      | VInt z => if (z <? 0)%Z then EStuck "negative index"
-                  else match nth_error vs (Z.to_nat z) with Some x => EOk x s | None => EExc (exn "IndexError") s end
-      | _ => EExc (exn "TypeError") s
-      end
-  | VNone | VBool _ | VInt _ => EExc (exn "TypeError") s
-  | _ => EStuck "subscript of an opaque value"
+  | VTup vs => match key with VInt z => nth_k vs z k kx | _ => kx (exn "TypeError") end
+  | VNone | VBool _ | VInt _ => kx (exn "TypeError")
+  | _ => stuck "subscript of an opaque value"
   end.
 
-Definition contains (h : heap) (k c : val) (s : st) : eres :=
+Definition contains_k (h : heap) (key c : val) (k : bool -> A) (kx : val -> A) : A :=
   match c with
   | VRef i =>
       match hget h i with
-      | Some (ODict kvs) => EOk (VBool (match dget k kvs with Some _ => true | None => false end)) s
-      | Some (OSet vs) => EOk (VBool (vmem k vs)) s
-      | Some (OList vs) => EOk (VBool (vmem k vs)) s
-      | Some _ => EStuck "membership in an opaque object"
-      | None => EStuck "dangling reference"
+      | Some (ODict kvs) => k (match dget key kvs with Some _ => true | None => false end)
+      | Some (OSet vs) => k (vmem key vs)
+      | Some (OList vs) => k (vmem key vs)
+      | Some _ => stuck "membership in an opaque object"
+      | None => stuck "dangling reference"
       end
-  | VTup vs => EOk (VBool (vmem k vs)) s
-  | VNone | VBool _ | VInt _ => EExc (exn "TypeError") s
-  | _ => EStuck "membership in an opaque value"
-  end.
-
-Definition get_attr (h : heap) (v : val) (a : string) (s : st) : eres :=
-  match v with
-  | VRef i =>
-      match hget h i with
-      | Some (OInst _ attrs) => match aget a attrs with Some x => EOk x s | None => EExc (exn "AttributeError") s end
-      | Some _ => EStuck "attribute of a non-instance"
-      | None => EStuck "dangling reference"
-      end
-  | VGlobal g => EOk (VGlobal (g ++ "." ++ a)) s
-  | VNone => EExc (exn "AttributeError") s
-  | _ => EStuck "attribute of an opaque value"
+  | VTup vs => k (vmem key vs)
+  | VNone | VBool _ | VInt _ => kx (exn "TypeError")
+  | _ => stuck "membership in an opaque value"
   end.
 
 (* methods of the built-in containers *)
-Definition builtin_method (h : heap) (i : N) (o : obj) (m : string) (args : list val) (s : st) : eres :=
-  let n := snd s in
+Definition builtin_method_k (h : heap) (i : N) (o : obj) (m : string) (args : list val)
+  (k : val -> heap -> A) (kx : val -> A) : A :=
   match o, m, args with
-  | ODict kvs, "pop", [k; d] =>
-      match dget k kvs with
-      | Some x => EOk x (hset h i (ODict (ddel k kvs)), n)
-      | None => EOk d s
+  | ODict kvs, "pop", [key; d] =>
+      match dget key kvs with
+      | Some x => k x (hset h i (ODict (ddel key kvs)))
+      | None => k d h
       end
-  | ODict kvs, "pop", [k] =>
-      match dget k kvs with
-      | Some x => EOk x (hset h i (ODict (ddel k kvs)), n)
-      | None => EExc (exn "KeyError") s
+  | ODict kvs, "pop", [key] =>
+      match dget key kvs with
+      | Some x => k x (hset h i (ODict (ddel key kvs)))
+      | None => kx (exn "KeyError")
       end
-  | ODict kvs, "get", [k; d] => EOk (match dget k kvs with Some x => x | None => d end) s
-  | ODict kvs, "get", [k] => EOk (match dget k kvs with Some x => x | None => VNone end) s
-  | OSet vs, "add", [x] => EOk VNone (hset h i (OSet (if vmem x vs then vs else vs ++ [x])), n)
-  | OSet vs, "discard", [x] => EOk VNone (hset h i (OSet (vremove x vs)), n)
+  | ODict kvs, "get", [key; d] => k (match dget key kvs with Some x => x | None => d end) h
+  | ODict kvs, "get", [key] => k (match dget key kvs with Some x => x | None => VNone end) h
+  | OSet vs, "add", [x] => k VNone (hset h i (OSet (if vmem x vs then vs else vs ++ [x])))
+  | OSet vs, "discard", [x] => k VNone (hset h i (OSet (vremove x vs)))
   | OSet vs, "remove", [x] =>
-      if vmem x vs then EOk VNone (hset h i (OSet (vremove x vs)), n) else EExc (exn "KeyError") s
-  | OList vs, "append", [x] => EOk VNone (hset h i (OList (vs ++ [x])), n)
-  | _, _, _ => EStuck ("unsupported built-in method " ++ m)
+      if vmem x vs then k VNone (hset h i (OSet (vremove x vs))) else kx (exn "KeyError")
+  | OList vs, "append", [x] => k VNone (hset h i (OList (vs ++ [x])))
+  | _, _, _ => stuck ("unsupported built-in method " ++ m)
   end.
 
 Definition iter_items (h : heap) (v : val) : option (list val) :=
@@ -349,254 +327,216 @@ Definition iter_items (h : heap) (v : val) : option (list val) :=
   | _ => None
   end.
 
-Definition eval_step (R : recs) (en : env) (e : expr) (s : st) : eres :=
+Definition dispatch (c : ctl) (en : env) (s : st)
+  (kn : env -> st -> A) (kr : val -> env -> st -> A) (kx : val -> env -> st -> A) : A :=
+  match c with
+  | CNorm => kn en s
+  | CRet v => kr v en s
+  | CExc x => kx x en s
+  end.
+
+Definition strip_exc (en : env) : env :=
+  match en with ("__exc__", _) :: en' => en' | _ => en end.
+
+(* ---- expressions, calls, assignments.  [blk] runs the body of a called program function: it is
+   the statement level at the fuel of the enclosing statement (see [exec] below).  Keeping the two
+   levels in separate fixpoints lets proofs evaluate everything below a statement by computation
+   without running into the next statement. *)
+Section Expr.
+Variable blk : env -> list stmt -> st -> (env -> st -> A) -> (val -> env -> st -> A) -> (val -> env -> st -> A) -> A.
+
+Fixpoint eval (fuel : nat) (en : env) (e : expr) (s : st) (k : val -> st -> A) (kx : val -> st -> A) {struct fuel} : A :=
+  match fuel with
+  | O => timeout
+  | S f =>
     match e with
     | EName x => match aget x en with
-                 | Some v => EOk v s
-                 | None => EExc (exn "UnboundLocalError") s
+                 | Some v => k v s
+                 | None => kx (exn "UnboundLocalError") s
                  end
-    | EGlob x => EOk (glob_get (fst s) x) s
-    | EConst c => EOk (const_val c) s
-    | ETuple es =>
-        match r_evals R en es s with
-        | LOk vs s1 => EOk (VTup vs) s1
-        | LExc x s1 => EExc x s1 | LTimeout => ETimeout | LStuck m => EStuck m
-        end
+    | EGlob x => k (glob_get (fst s) x) s
+    | EConst c => k (const_val c) s
+    | ETuple es => evals f en es s (fun vs s1 => k (VTup vs) s1) kx
     | EAttr e1 a =>
-        match r_eval R en e1 s with
-        | EOk v s1 =>
-            match v with
-            | VRef i => match hget (fst s1) i with
-                        | Some OOpaque => r_ocall R "getattr" [v; VStr a] [] s1
-                        | _ => get_attr (fst s1) v a s1
-                        end
-            | _ => get_attr (fst s1) v a s1
-            end
-        | r => r
-        end
-    | ESub e1 k =>
-        match r_eval R en e1 s with
-        | EOk v s1 =>
-            match r_eval R en k s1 with
-            | EOk vk s2 => subscript (fst s2) v vk s2
-            | r => r
-            end
-        | r => r
-        end
+        eval f en e1 s (fun v s1 =>
+          match v with
+          | VRef i =>
+              match hget (fst s1) i with
+              | Some (OInst _ attrs) => match aget a attrs with Some x => k x s1 | None => kx (exn "AttributeError") s1 end
+              | Some OOpaque => ocall f "getattr" [v; VStr a] [] s1 k kx
+              | Some _ => stuck "attribute of a non-instance"
+              | None => stuck "dangling reference"
+              end
+          | VGlobal g => k (VGlobal (g ++ "." ++ a)) s1
+          | VNone => kx (exn "AttributeError") s1
+          | _ => stuck "attribute of an opaque value"
+          end) kx
+    | ESub e1 e2 =>
+        eval f en e1 s (fun v s1 =>
+          eval f en e2 s1 (fun vk s2 =>
+            subscript_k (fst s2) v vk (fun x => k x s2) (fun x => kx x s2)) kx) kx
     | ECmp op a b =>
-        match r_eval R en a s with
-        | EOk va s1 =>
-            match r_eval R en b s1 with
-            | EOk vb s2 =>
-                match op with
-                | OpIs => match val_is va vb with Some r => EOk (VBool r) s2 | None => EStuck "is on values without identity" end
-                | OpIsNot => match val_is va vb with Some r => EOk (VBool (negb r)) s2 | None => EStuck "is on values without identity" end
-                | OpIn => contains (fst s2) va vb s2
-                | OpNotIn => match contains (fst s2) va vb s2 with
-                             | EOk (VBool r) s3 => EOk (VBool (negb r)) s3
-                             | r => r
-                             end
-                | OpEq => match va, vb with
-                          | VRef _, _ | _, VRef _ => EStuck "== on heap objects"
-                          | _, _ => EOk (VBool (val_eqb va vb)) s2
-                          end
-                | OpNotEq => match va, vb with
-                             | VRef _, _ | _, VRef _ => EStuck "!= on heap objects"
-                             | _, _ => EOk (VBool (negb (val_eqb va vb))) s2
-                             end
-                end
-            | r => r
-            end
-        | r => r
-        end
+        eval f en a s (fun va s1 =>
+          eval f en b s1 (fun vb s2 =>
+            match op with
+            | OpIs => match val_is va vb with Some r => k (VBool r) s2 | None => stuck "is on values without identity" end
+            | OpIsNot => match val_is va vb with Some r => k (VBool (negb r)) s2 | None => stuck "is on values without identity" end
+            | OpIn => contains_k (fst s2) va vb (fun r => k (VBool r) s2) (fun x => kx x s2)
+            | OpNotIn => contains_k (fst s2) va vb (fun r => k (VBool (negb r)) s2) (fun x => kx x s2)
+            | OpEq => match va, vb with
+                      | VRef _, _ | _, VRef _ => stuck "== on heap objects"
+                      | _, _ => k (VBool (val_eqb va vb)) s2
+                      end
+            | OpNotEq => match va, vb with
+                         | VRef _, _ | _, VRef _ => stuck "!= on heap objects"
+                         | _, _ => k (VBool (negb (val_eqb va vb))) s2
+                         end
+            end) kx) kx
     | EAnd a b =>
-        match r_eval R en a s with
-        | EOk va s1 => match truthy (fst s1) va with
-                       | Some true => r_eval R en b s1
-                       | Some false => EOk va s1
-                       | None => EStuck "truth value of a dangling reference"
-                       end
-        | r => r
-        end
+        eval f en a s (fun va s1 =>
+          truthy_k (fst s1) va (fun t => if t then eval f en b s1 k kx else k va s1)) kx
     | EOr a b =>
-        match r_eval R en a s with
-        | EOk va s1 => match truthy (fst s1) va with
-                       | Some true => EOk va s1
-                       | Some false => r_eval R en b s1
-                       | None => EStuck "truth value of a dangling reference"
-                       end
-        | r => r
-        end
+        eval f en a s (fun va s1 =>
+          truthy_k (fst s1) va (fun t => if t then k va s1 else eval f en b s1 k kx)) kx
     | ENot a =>
-        match r_eval R en a s with
-        | EOk va s1 => match truthy (fst s1) va with
-                       | Some b => EOk (VBool (negb b)) s1
-                       | None => EStuck "truth value of a dangling reference"
-                       end
-        | r => r
-        end
+        eval f en a s (fun va s1 => truthy_k (fst s1) va (fun t => k (VBool (negb t)) s1)) kx
     | EIf c a b =>
-        match r_eval R en c s with
-        | EOk vc s1 => match truthy (fst s1) vc with
-                       | Some true => r_eval R en a s1
-                       | Some false => r_eval R en b s1
-                       | None => EStuck "truth value of a dangling reference"
-                       end
-        | r => r
-        end
+        eval f en c s (fun vc s1 =>
+          truthy_k (fst s1) vc (fun t => if t then eval f en a s1 k kx else eval f en b s1 k kx)) kx
     | EAdd a b =>
-        match r_eval R en a s with
-        | EOk va s1 =>
-            match r_eval R en b s1 with
-            | EOk vb s2 => match va, vb with
-                           | VStr x, VStr y => EOk (VStr (x ++ y)) s2
-                           | VStr _, (VNone | VBool _ | VInt _ | VTup _) => EExc (exn "TypeError") s2
-                           | _, _ => EStuck "+ on non-strings"
-                           end
-            | r => r
-            end
-        | r => r
-        end
+        eval f en a s (fun va s1 =>
+          eval f en b s1 (fun vb s2 =>
+            match va, vb with
+            | VStr x, VStr y => k (VStr (x ++ y)) s2
+            | VStr _, (VNone | VBool _ | VInt _ | VTup _) => kx (exn "TypeError") s2
+            | _, _ => stuck "+ on non-strings"
+            end) kx) kx
     | ECall fn args kw =>
         match fn with
         | EAttr recv m =>
-            match r_eval R en recv s with
-            | EOk vr s1 =>
-                match r_evals R en args s1 with
-                | LOk vargs s2 =>
-                    match r_evalkw R en kw s2 with
-                    | KOk vkw s3 => r_call_method R (aget "__exc__" en) vr m vargs vkw s3
-                    | KExc x s3 => EExc x s3
-                    | KTimeout => ETimeout
-                    | KStuck m' => EStuck m'
-                    end
-                | LExc x s2 => EExc x s2 | LTimeout => ETimeout | LStuck m' => EStuck m'
-                end
-            | r => r
-            end
+            eval f en recv s (fun vr s1 =>
+              evals f en args s1 (fun vargs s2 =>
+                evalkw f en kw s2 (fun vkw s3 =>
+                  call_method f (aget "__exc__" en) vr m vargs vkw s3 k kx) kx) kx) kx
         | _ =>
-            match r_eval R en fn s with
-            | EOk vf s1 =>
-                match r_evals R en args s1 with
-                | LOk vargs s2 =>
-                    match r_evalkw R en kw s2 with
-                    | KOk vkw s3 => r_call_value R (aget "__exc__" en) vf vargs vkw s3
-                    | KExc x s3 => EExc x s3
-                    | KTimeout => ETimeout
-                    | KStuck m' => EStuck m'
-                    end
-                | LExc x s2 => EExc x s2 | LTimeout => ETimeout | LStuck m' => EStuck m'
-                end
-            | r => r
-            end
+            eval f en fn s (fun vf s1 =>
+              evals f en args s1 (fun vargs s2 =>
+                evalkw f en kw s2 (fun vkw s3 =>
+                  call_value f (aget "__exc__" en) vf vargs vkw s3 k kx) kx) kx) kx
         end
     | ESuper =>
         match aget "self" en, aget "__class__" en with
-        | Some vself, Some (VStr c) => EOk (VSuper vself c) s
-        | _, _ => EStuck "super() outside a method"
+        | Some vself, Some (VStr c) => k (VSuper vself c) s
+        | _, _ => stuck "super() outside a method"
         end
     | EOpaque src =>
         if String.eqb src "sys.exc_info()" then
-          EOk (match aget "__exc__" en with
-               | Some x => VTup [VGlobal "type(exc)"; x; VGlobal "exc.__traceback__"]
-               | None => VTup [VNone; VNone; VNone]
-               end) s
-        else r_ocall R src [] [] s
-    end.
+          k (match aget "__exc__" en with
+             | Some x => VTup [VGlobal "type(exc)"; x; VGlobal "exc.__traceback__"]
+             | None => VTup [VNone; VNone; VNone]
+             end) s
+        else ocall f src [] [] s k kx
+    end
+  end
 
-Definition evals_step (R : recs) (en : env) (es : list expr) (s : st) : elres :=
+with evals (fuel : nat) (en : env) (es : list expr) (s : st) (k : list val -> st -> A) (kx : val -> st -> A) {struct fuel} : A :=
+  match fuel with
+  | O => timeout
+  | S f =>
     match es with
-    | [] => LOk [] s
-    | e :: r =>
-        match r_eval R en e s with
-        | EOk v s1 =>
-            match r_evals R en r s1 with
-            | LOk vs s2 => LOk (v :: vs) s2
-            | x => x
-            end
-        | EExc x s1 => LExc x s1 | ETimeout => LTimeout | EStuck m => LStuck m
-        end
-    end.
+    | [] => k [] s
+    | e :: r => eval f en e s (fun v s1 => evals f en r s1 (fun vs s2 => k (v :: vs) s2) kx) kx
+    end
+  end
 
-Definition evalkw_step (R : recs) (en : env) (kw : list (string * expr)) (s : st) : kres :=
+with evalkw (fuel : nat) (en : env) (kw : list (string * expr)) (s : st)
+  (k : list (string * val) -> st -> A) (kx : val -> st -> A) {struct fuel} : A :=
+  match fuel with
+  | O => timeout
+  | S f =>
     match kw with
-    | [] => KOk [] s
-    | (k, e) :: r =>
-        match r_eval R en e s with
-        | EOk v s1 =>
-            match r_evalkw R en r s1 with
-            | KOk vs s2 => KOk ((k, v) :: vs) s2
-            | KExc x s2 => KExc x s2
-            | KTimeout => KTimeout
-            | KStuck m => KStuck m
-            end
-        | EExc x s1 => KExc x s1
-        | ETimeout => KTimeout
-        | EStuck m => KStuck m
-        end
-    end.
+    | [] => k [] s
+    | (x, e) :: r => eval f en e s (fun v s1 => evalkw f en r s1 (fun vs s2 => k ((x, v) :: vs) s2) kx) kx
+    end
+  end
 
 (* an opaque call: ask the oracle (indexed by the number of opaque calls made so far), log the call *)
-Definition ocall_step (R : recs) (g : string) (args : list val) (kw : list (string * val)) (s : st) : eres := r_run_beh R (Orc (log_len (snd s)) g args kw (fst s)) ((g, args, kw) :: snd s).
+with ocall (fuel : nat) (g : string) (args : list val) (kw : list (string * val)) (s : st)
+  (k : val -> st -> A) (kx : val -> st -> A) {struct fuel} : A :=
+  match fuel with
+  | O => timeout
+  | S f => run_beh f (Orc (log_len (snd s)) g args kw (fst s)) ((g, args, kw) :: snd s) k kx
+  end
 
 (* run what an opaque callee does; n = the call log including this call *)
-Definition run_beh_step (R : recs) (b : beh) (n : list event) : eres :=
+with run_beh (fuel : nat) (b : beh) (n : list event) (k : val -> st -> A) (kx : val -> st -> A) {struct fuel} : A :=
+  match fuel with
+  | O => timeout
+  | S f =>
     match b with
-    | BDone h (ORet v) => EOk v (h, n)
-    | BDone h (ORaise x) => EExc x (h, n)
-    | BCall h g args kw k =>
+    | BDone h (ORet v) => k v (h, n)
+    | BDone h (ORaise x) => kx x (h, n)
+    | BCall h g args kw kb =>
         match lookup_fun P g with
         | Some fd =>
-            match r_call_fun R None g fd args kw (h, n) with
-            | EOk v (h1, n1) => r_run_beh R (k h1 (ORet v)) n1
-            | EExc x (h1, n1) => r_run_beh R (k h1 (ORaise x)) n1
-            | r => r
-            end
-        | None => EStuck "callback into an unknown function"
+            call_fun f None g fd args kw (h, n)
+              (fun v s1 => run_beh f (kb (fst s1) (ORet v)) (snd s1) k kx)
+              (fun x s1 => run_beh f (kb (fst s1) (ORaise x)) (snd s1) k kx)
+        | None => stuck "callback into an unknown function"
         end
-    end.
+    end
+  end
 
-Definition call_value_step (R : recs) (cur : option val) (vf : val) (args : list val) (kw : list (string * val)) (s : st) : eres :=
+with call_value (fuel : nat) (cur : option val) (vf : val) (args : list val) (kw : list (string * val)) (s : st)
+  (k : val -> st -> A) (kx : val -> st -> A) {struct fuel} : A :=
+  match fuel with
+  | O => timeout
+  | S f =>
     match vf with
     | VGlobal g =>
         match lookup_fun P g with
-        | Some fd => r_call_fun R cur g fd args kw s
-        | None => r_ocall R g args kw s
+        | Some fd => call_fun f cur g fd args kw s k kx
+        | None => ocall f g args kw s k kx
         end
     | VRef i =>
         match hget (fst s) i with
         | Some (OInst c _) =>
             match find_method P (mro_of P c) "__call__" with
-            | Some (c', fd) => r_call_fun R cur (c' ++ ".__call__") fd (vf :: args) kw s
-            | None => r_ocall R (c ++ ".__call__") (vf :: args) kw s
+            | Some (c', fd) => call_fun f cur (c' ++ ".__call__") fd (vf :: args) kw s k kx
+            | None => ocall f (c ++ ".__call__") (vf :: args) kw s k kx
             end
-        | Some OOpaque => r_ocall R "<object>.__call__" (vf :: args) kw s
-        | Some _ => EExc (exn "TypeError") s
-        | None => EStuck "dangling reference"
+        | Some OOpaque => ocall f "<object>.__call__" (vf :: args) kw s k kx
+        | Some _ => kx (exn "TypeError") s
+        | None => stuck "dangling reference"
         end
-    | VNone | VBool _ | VStr _ | VInt _ | VTup _ => EExc (exn "TypeError") s
-    | _ => EStuck "call of an unsupported value"
-    end.
+    | VNone | VBool _ | VStr _ | VInt _ | VTup _ => kx (exn "TypeError") s
+    | _ => stuck "call of an unsupported value"
+    end
+  end
 
-Definition call_method_step (R : recs) (cur : option val) (vr : val) (m : string) (args : list val) (kw : list (string * val)) (s : st) : eres :=
+with call_method (fuel : nat) (cur : option val) (vr : val) (m : string) (args : list val) (kw : list (string * val)) (s : st)
+  (k : val -> st -> A) (kx : val -> st -> A) {struct fuel} : A :=
+  match fuel with
+  | O => timeout
+  | S f =>
     match vr with
     | VRef i =>
         match hget (fst s) i with
         | Some (OInst c attrs) =>
             match aget m attrs with
-            | Some vf => r_call_value R cur vf args kw s
+            | Some vf => call_value f cur vf args kw s k kx
             | None =>
                 match find_method P (mro_of P c) m with
-                | Some (c', fd) => r_call_fun R cur (c' ++ "." ++ m) fd (vr :: args) kw s
-                | None => r_ocall R (c ++ "." ++ m) (vr :: args) kw s
+                | Some (c', fd) => call_fun f cur (c' ++ "." ++ m) fd (vr :: args) kw s k kx
+                | None => ocall f (c ++ "." ++ m) (vr :: args) kw s k kx
                 end
             end
-        | Some OOpaque => r_ocall R ("<object>." ++ m) (vr :: args) kw s
+        | Some OOpaque => ocall f ("<object>." ++ m) (vr :: args) kw s k kx
         | Some o => match kw with
-                    | [] => builtin_method (fst s) i o m args s
-                    | _ => EStuck "keyword arguments to a built-in method"
+                    | [] => builtin_method_k (fst s) i o m args (fun v h' => k v (h', snd s)) (fun x => kx x s)
+                    | _ => stuck "keyword arguments to a built-in method"
                     end
-        | None => EStuck "dangling reference"
+        | None => stuck "dangling reference"
         end
     | VSuper vself c =>
         match vself with
@@ -604,272 +544,206 @@ Definition call_method_step (R : recs) (cur : option val) (vr : val) (m : string
             match hget (fst s) i with
             | Some (OInst c0 _) =>
                 match find_method P (drop_until c (mro_of P c0)) m with
-                | Some (c', fd) => r_call_fun R cur (c' ++ "." ++ m) fd (vself :: args) kw s
-                | None => r_ocall R ("super." ++ m) (vself :: args) kw s
+                | Some (c', fd) => call_fun f cur (c' ++ "." ++ m) fd (vself :: args) kw s k kx
+                | None => ocall f ("super." ++ m) (vself :: args) kw s k kx
                 end
-            | _ => EStuck "super() of a non-instance"
+            | _ => stuck "super() of a non-instance"
             end
-        | _ => EStuck "super() of a non-instance"
+        | _ => stuck "super() of a non-instance"
         end
-    | VGlobal g => r_call_value R cur (VGlobal (g ++ "." ++ m)) args kw s
-    | VNone => EExc (exn "AttributeError") s
-    | _ => EStuck "method call on an unsupported value"
-    end.
+    | VGlobal g => call_value f cur (VGlobal (g ++ "." ++ m)) args kw s k kx
+    | VNone => kx (exn "AttributeError") s
+    | _ => stuck "method call on an unsupported value"
+    end
+  end
 
-Definition call_fun_step (R : recs) (cur : option val) (name : string) (fd : fundef) (args : list val) (kw : list (string * val)) (s : st) : eres :=
+with call_fun (fuel : nat) (cur : option val) (name : string) (fd : fundef) (args : list val) (kw : list (string * val)) (s : st)
+  (k : val -> st -> A) (kx : val -> st -> A) {struct fuel} : A :=
+  match fuel with
+  | O => timeout
+  | S f =>
     match bind_params fd args kw with
-    | None => EExc (exn "TypeError") s
+    | None => kx (exn "TypeError") s
     | Some en0 =>
         let en1 := match before_dot name with
                    | Some c => ("__class__", VStr c) :: en0
                    | None => en0
                    end in
         (* the exception being handled is dynamic: a callee sees its caller's *)
-        let en1 := match cur with
+        let en2 := match cur with
                    | Some x => ("__exc__", x) :: en1
                    | None => en1
                    end in
-        match r_exec_block R en1 (fbody fd) s with
-        | SR CNorm _ s1 => EOk VNone s1
-        | SR (CRet v) _ s1 => EOk v s1
-        | SR (CExc x) _ s1 => EExc x s1
-        | STimeout => ETimeout
-        | SStuck m => EStuck m
-        end
-    end.
+        blk en2 (fbody fd) s
+          (fun _ s1 => k VNone s1) (fun v _ s1 => k v s1) (fun x _ s1 => kx x s1)
+    end
+  end
 
-Definition assign_step (R : recs) (en : env) (t : target) (v : val) (s : st) : sres :=
+with assign (fuel : nat) (en : env) (t : target) (v : val) (s : st)
+  (kn : env -> st -> A) (kx : val -> env -> st -> A) {struct fuel} : A :=
+  match fuel with
+  | O => timeout
+  | S f =>
     match t with
-    | TName x => SR CNorm (aset x v en) s
+    | TName x => kn (aset x v en) s
     | TGlob x =>
         match hget (fst s) module_dict with
-        | Some (ODict kvs) => SR CNorm en (hset (fst s) module_dict (ODict (dset (VStr x) v kvs)), snd s)
-        | _ => SStuck "no module dictionary"
+        | Some (ODict kvs) => kn en (hset (fst s) module_dict (ODict (dset (VStr x) v kvs)), snd s)
+        | _ => stuck "no module dictionary"
         end
-    | TSub e k =>
-        match r_eval R en e s with
-        | EOk vo s1 =>
-            match r_eval R en k s1 with
-            | EOk vk s2 =>
-                match vo with
-                | VRef i =>
-                    match hget (fst s2) i with
-                    | Some (ODict kvs) => SR CNorm en (hset (fst s2) i (ODict (dset vk v kvs)), snd s2)
-                    | Some _ => SStuck "item assignment to a non-dict"
-                    | None => SStuck "dangling reference"
-                    end
-                | VNone | VBool _ | VInt _ | VStr _ | VTup _ => SR (CExc (exn "TypeError")) en s2
-                | _ => SStuck "item assignment to an opaque value"
-                end
-            | EExc x s2 => SR (CExc x) en s2 | ETimeout => STimeout | EStuck m => SStuck m
-            end
-        | EExc x s1 => SR (CExc x) en s1 | ETimeout => STimeout | EStuck m => SStuck m
-        end
-    | TAttr e a =>
-        match r_eval R en e s with
-        | EOk vo s1 =>
+    | TSub e e2 =>
+        eval f en e s (fun vo s1 =>
+          eval f en e2 s1 (fun vk s2 =>
             match vo with
             | VRef i =>
-                match hget (fst s1) i with
-                | Some (OInst c attrs) => SR CNorm en (hset (fst s1) i (OInst c (aset a v attrs)), snd s1)
-                | Some _ => SStuck "attribute assignment to a non-instance"
-                | None => SStuck "dangling reference"
+                match hget (fst s2) i with
+                | Some (ODict kvs) => kn en (hset (fst s2) i (ODict (dset vk v kvs)), snd s2)
+                | Some _ => stuck "item assignment to a non-dict"
+                | None => stuck "dangling reference"
                 end
-            | VGlobal _ =>
-                match r_ocall R "setattr" [vo; VStr a; v] [] s1 with
-                | EOk _ s2 => SR CNorm en s2
-                | EExc x s2 => SR (CExc x) en s2
-                | ETimeout => STimeout
-                | EStuck m => SStuck m
-                end
-            | _ => SStuck "attribute assignment to a non-reference"
-            end
-        | EExc x s1 => SR (CExc x) en s1 | ETimeout => STimeout | EStuck m => SStuck m
-        end
+            | VNone | VBool _ | VInt _ | VStr _ | VTup _ => kx (exn "TypeError") en s2
+            | _ => stuck "item assignment to an opaque value"
+            end) (fun x s2 => kx x en s2)) (fun x s1 => kx x en s1)
+    | TAttr e a =>
+        eval f en e s (fun vo s1 =>
+          match vo with
+          | VRef i =>
+              match hget (fst s1) i with
+              | Some (OInst c attrs) => kn en (hset (fst s1) i (OInst c (aset a v attrs)), snd s1)
+              | Some _ => stuck "attribute assignment to a non-instance"
+              | None => stuck "dangling reference"
+              end
+          | VGlobal _ => ocall f "setattr" [vo; VStr a; v] [] s1 (fun _ s2 => kn en s2) (fun x s2 => kx x en s2)
+          | _ => stuck "attribute assignment to a non-reference"
+          end) (fun x s1 => kx x en s1)
     | TTuple ts =>
         match iter_items (fst s) v with
         | Some vs =>
-            if Nat.eqb (List.length vs) (List.length ts) then r_assigns R en ts vs s
-            else SR (CExc (exn "ValueError")) en s
+            if Nat.eqb (List.length vs) (List.length ts) then assigns f en ts vs s kn kx
+            else kx (exn "ValueError") en s
         | None => match v with
-                  | VNone | VBool _ | VInt _ => SR (CExc (exn "TypeError")) en s
-                  | _ => SStuck "unpacking an opaque value"
+                  | VNone | VBool _ | VInt _ => kx (exn "TypeError") en s
+                  | _ => stuck "unpacking an opaque value"
                   end
         end
-    end.
+    end
+  end
 
-Definition assigns_step (R : recs) (en : env) (ts : list target) (vs : list val) (s : st) : sres :=
+with assigns (fuel : nat) (en : env) (ts : list target) (vs : list val) (s : st)
+  (kn : env -> st -> A) (kx : val -> env -> st -> A) {struct fuel} : A :=
+  match fuel with
+  | O => timeout
+  | S f =>
     match ts, vs with
-    | t :: ts', v :: vs' =>
-        match r_assign R en t v s with
-        | SR CNorm en1 s1 => r_assigns R en1 ts' vs' s1
-        | r => r
-        end
-    | _, _ => SR CNorm en s
-    end.
+    | t :: ts', v :: vs' => assign f en t v s (fun en1 s1 => assigns f en1 ts' vs' s1 kn kx) kx
+    | _, _ => kn en s
+    end
+  end.
 
-Definition exec_step (R : recs) (en : env) (c : stmt) (s : st) : sres :=
+End Expr.
+
+(* ---- statements *)
+Fixpoint exec (fuel : nat) (en : env) (c : stmt) (s : st)
+  (kn : env -> st -> A) (kr : val -> env -> st -> A) (kx : val -> env -> st -> A) {struct fuel} : A :=
+  match fuel with
+  | O => timeout
+  | S f =>
     match c with
-    | SAssign t e =>
-        match r_eval R en e s with
-        | EOk v s1 => r_assign R en t v s1
-        | EExc x s1 => SR (CExc x) en s1 | ETimeout => STimeout | EStuck m => SStuck m
-        end
-    | SExpr e =>
-        match r_eval R en e s with
-        | EOk _ s1 => SR CNorm en s1
-        | EExc x s1 => SR (CExc x) en s1 | ETimeout => STimeout | EStuck m => SStuck m
-        end
+    | SAssign t e => eval (exec_block f) f en e s (fun v s1 => assign (exec_block f) f en t v s1 kn kx) (fun x s1 => kx x en s1)
+    | SExpr e => eval (exec_block f) f en e s (fun _ s1 => kn en s1) (fun x s1 => kx x en s1)
     | SIf c a b =>
-        match r_eval R en c s with
-        | EOk vc s1 => match truthy (fst s1) vc with
-                       | Some true => r_exec_block R en a s1
-                       | Some false => r_exec_block R en b s1
-                       | None => SStuck "truth value of a dangling reference"
-                       end
-        | EExc x s1 => SR (CExc x) en s1 | ETimeout => STimeout | EStuck m => SStuck m
-        end
+        eval (exec_block f) f en c s (fun vc s1 =>
+          truthy_k (fst s1) vc (fun t => if t then exec_block f en a s1 kn kr kx else exec_block f en b s1 kn kr kx))
+          (fun x s1 => kx x en s1)
     | STry body handlers fin =>
-        match r_exec_block R en body s with
-        | SR c1 en1 s1 =>
-            match (match c1 with
-                   | CExc x => r_handle R en1 x handlers s1
-                   | _ => SR c1 en1 s1
-                   end) with
-            | SR c2 en2 s2 =>
-                match fin with
-                | [] => SR c2 en2 s2
-                | _ =>
-                    match r_exec_block R en2 fin s2 with
-                    | SR CNorm en3 s3 => SR c2 en3 s3
-                    | SR c3 en3 s3 => SR c3 en3 s3
-                    | STimeout => STimeout
-                    | SStuck m => SStuck m
-                    end
-                end
-            | STimeout => STimeout
-            | SStuck m => SStuck m
-            end
-        | STimeout => STimeout
-        | SStuck m => SStuck m
-        end
+        (* whatever way control leaves the body or a handler, the finally block runs first;
+           if it completes normally the original way out is resumed, otherwise its own way out wins *)
+        let after (c2 : ctl) (en2 : env) (s2 : st) : A :=
+          match fin with
+          | [] => dispatch c2 en2 s2 kn kr kx
+          | _ => exec_block f en2 fin s2 (fun en3 s3 => dispatch c2 en3 s3 kn kr kx) kr kx
+          end in
+        exec_block f en body s
+          (fun en1 s1 => after CNorm en1 s1)
+          (fun v en1 s1 => after (CRet v) en1 s1)
+          (fun x en1 s1 =>
+             handle f en1 x handlers s1
+               (fun en2 s2 => after CNorm en2 s2)
+               (fun v en2 s2 => after (CRet v) en2 s2)
+               (fun x2 en2 s2 => after (CExc x2) en2 s2))
     | SFor t e body =>
-        match r_eval R en e s with
-        | EOk v s1 => match iter_items (fst s1) v with
-                      | Some vs => r_exec_for R en t vs body s1
-                      | None => SStuck "iteration over an opaque value"
-                      end
-        | EExc x s1 => SR (CExc x) en s1 | ETimeout => STimeout | EStuck m => SStuck m
-        end
-    | SReturn None => SR (CRet VNone) en s
-    | SReturn (Some e) =>
-        match r_eval R en e s with
-        | EOk v s1 => SR (CRet v) en s1
-        | EExc x s1 => SR (CExc x) en s1 | ETimeout => STimeout | EStuck m => SStuck m
-        end
+        eval (exec_block f) f en e s (fun v s1 =>
+          match iter_items (fst s1) v with
+          | Some vs => exec_for f en t vs body s1 kn kr kx
+          | None => stuck "iteration over an opaque value"
+          end) (fun x s1 => kx x en s1)
+    | SReturn None => kr VNone en s
+    | SReturn (Some e) => eval (exec_block f) f en e s (fun v s1 => kr v en s1) (fun x s1 => kx x en s1)
     | SRaise None =>
         match aget "__exc__" en with
-        | Some x => SR (CExc x) en s
-        | None => SR (CExc (exn "RuntimeError")) en s
+        | Some x => kx x en s
+        | None => kx (exn "RuntimeError") en s
         end
     | SRaise (Some e) =>
-        match r_eval R en e s with
-        | EOk (VExc c i) s1 => SR (CExc (VExc c i)) en s1
-        | EOk _ s1 => SStuck "raise of a non-exception value"
-        | EExc x s1 => SR (CExc x) en s1 | ETimeout => STimeout | EStuck m => SStuck m
-        end
-    | SGlobal _ => SR CNorm en s
-    | SPass => SR CNorm en s
-    end.
+        eval (exec_block f) f en e s (fun v s1 =>
+          match v with
+          | VExc c i => kx (VExc c i) en s1
+          | _ => stuck "raise of a non-exception value"
+          end) (fun x s1 => kx x en s1)
+    | SGlobal _ => kn en s
+    | SPass => kn en s
+    end
+  end
 
-Definition handle_step (R : recs) (en : env) (x : val) (hs : list (list string * option string * list stmt)) (s : st) : sres :=
+with handle (fuel : nat) (en : env) (x : val) (hs : list (list string * option string * list stmt)) (s : st)
+  (kn : env -> st -> A) (kr : val -> env -> st -> A) (kx : val -> env -> st -> A) {struct fuel} : A :=
+  match fuel with
+  | O => timeout
+  | S f =>
     match hs with
-    | [] => SR (CExc x) en s
+    | [] => kx x en s
     | (classes, nm, body) :: r =>
         if exc_matches P x classes then
           let en1 := ("__exc__", x) :: match nm with Some n => aset n x en | None => en end in
-          match r_exec_block R en1 body s with
-          | SR c en2 s2 => SR c (match en2 with ("__exc__", _) :: en3 => en3 | _ => en2 end) s2
-          | r => r
-          end
-        else r_handle R en x r s
-    end.
+          exec_block f en1 body s
+            (fun en2 s2 => kn (strip_exc en2) s2)
+            (fun v en2 s2 => kr v (strip_exc en2) s2)
+            (fun x2 en2 s2 => kx x2 (strip_exc en2) s2)
+        else handle f en x r s kn kr kx
+    end
+  end
 
-Definition exec_for_step (R : recs) (en : env) (t : target) (vs : list val) (body : list stmt) (s : st) : sres :=
-    match vs with
-    | [] => SR CNorm en s
-    | v :: r =>
-        match r_assign R en t v s with
-        | SR CNorm en1 s1 =>
-            match r_exec_block R en1 body s1 with
-            | SR CNorm en2 s2 => r_exec_for R en2 t r body s2
-            | x => x
-            end
-        | x => x
-        end
-    end.
-
-Definition exec_block_step (R : recs) (en : env) (cs : list stmt) (s : st) : sres :=
-    match cs with
-    | [] => SR CNorm en s
-    | c :: r =>
-        match r_exec R en c s with
-        | SR CNorm en1 s1 => r_exec_block R en1 r s1
-        | x => x
-        end
-    end.
-
-Definition bottom : recs := {|
-  r_eval := fun en e s => ETimeout;
-  r_evals := fun en es s => LTimeout;
-  r_evalkw := fun en kw s => KTimeout;
-  r_ocall := fun g args kw s => ETimeout;
-  r_run_beh := fun b n => ETimeout;
-  r_call_value := fun cur vf args kw s => ETimeout;
-  r_call_method := fun cur vr m args kw s => ETimeout;
-  r_call_fun := fun cur name fd args kw s => ETimeout;
-  r_assign := fun en t v s => STimeout;
-  r_assigns := fun en ts vs s => STimeout;
-  r_exec := fun en c s => STimeout;
-  r_handle := fun en x hs s => STimeout;
-  r_exec_for := fun en t vs body s => STimeout;
-  r_exec_block := fun en cs s => STimeout
-|}.
-
-Fixpoint interp (fuel : nat) : recs :=
+with exec_for (fuel : nat) (en : env) (t : target) (vs : list val) (body : list stmt) (s : st)
+  (kn : env -> st -> A) (kr : val -> env -> st -> A) (kx : val -> env -> st -> A) {struct fuel} : A :=
   match fuel with
-  | O => bottom
-  | S f => let R := interp f in {|
-      r_eval := eval_step R;
-      r_evals := evals_step R;
-      r_evalkw := evalkw_step R;
-      r_ocall := ocall_step R;
-      r_run_beh := run_beh_step R;
-      r_call_value := call_value_step R;
-      r_call_method := call_method_step R;
-      r_call_fun := call_fun_step R;
-      r_assign := assign_step R;
-      r_assigns := assigns_step R;
-      r_exec := exec_step R;
-      r_handle := handle_step R;
-      r_exec_for := exec_for_step R;
-      r_exec_block := exec_block_step R
-    |}
+  | O => timeout
+  | S f =>
+    match vs with
+    | [] => kn en s
+    | v :: r =>
+        assign (exec_block f) f en t v s
+          (fun en1 s1 => exec_block f en1 body s1 (fun en2 s2 => exec_for f en2 t r body s2 kn kr kx) kr kx)
+          kx
+    end
+  end
+
+with exec_block (fuel : nat) (en : env) (cs : list stmt) (s : st)
+  (kn : env -> st -> A) (kr : val -> env -> st -> A) (kx : val -> env -> st -> A) {struct fuel} : A :=
+  match fuel with
+  | O => timeout
+  | S f =>
+    match cs with
+    | [] => kn en s
+    | c :: r => exec f en c s (fun en1 s1 => exec_block f en1 r s1 kn kr kx) kr kx
+    end
   end.
 
-Definition eval (fuel : nat) := r_eval (interp fuel).
-Definition evals (fuel : nat) := r_evals (interp fuel).
-Definition evalkw (fuel : nat) := r_evalkw (interp fuel).
-Definition ocall (fuel : nat) := r_ocall (interp fuel).
-Definition run_beh (fuel : nat) := r_run_beh (interp fuel).
-Definition call_value (fuel : nat) := r_call_value (interp fuel).
-Definition call_method (fuel : nat) := r_call_method (interp fuel).
-Definition call_fun (fuel : nat) := r_call_fun (interp fuel).
-Definition assign (fuel : nat) := r_assign (interp fuel).
-Definition assigns (fuel : nat) := r_assigns (interp fuel).
-Definition exec (fuel : nat) := r_exec (interp fuel).
-Definition handle (fuel : nat) := r_handle (interp fuel).
-Definition exec_for (fuel : nat) := r_exec_for (interp fuel).
-Definition exec_block (fuel : nat) := r_exec_block (interp fuel).
-
 End Sem.
+
+(* ---- running with a result value as the answer *)
+Definition run_fun (P : prog) (Orc : oracle) (fuel : nat) (cur : option val) (name : string) (fd : fundef)
+  (args : list val) (kw : list (string * val)) (s : st) : eres :=
+  call_fun P Orc eres ETimeout EStuck (exec_block P Orc eres ETimeout EStuck fuel) fuel cur name fd args kw s EOk EExc.
+Definition run_method (P : prog) (Orc : oracle) (fuel : nat) (vr : val) (m : string)
+  (args : list val) (kw : list (string * val)) (s : st) : eres :=
+  call_method P Orc eres ETimeout EStuck (exec_block P Orc eres ETimeout EStuck fuel) fuel None vr m args kw s EOk EExc.
